@@ -100,6 +100,8 @@ def run_compare(src_fn, ref_fn, rng=None, threads=2, fault=None, max_block_mem=5
                         box['outcome'] = 'ok'
                     except BaseException as ex:   # noqa: B902
                         box['outcome'] = 'raise:' + type(ex).__name__
+                        import traceback
+                        box['traceback'] = traceback.format_exc()[-1500:]
         except BaseException as ex:   # noqa: B902
             box['outcome'] = 'harness-error:' + type(ex).__name__ + ':' + str(ex)[:200]
     th = threading.Thread(target=body, daemon=True)
@@ -107,7 +109,7 @@ def run_compare(src_fn, ref_fn, rng=None, threads=2, fault=None, max_block_mem=5
     th.join(timeout)
     if th.is_alive():
         box['outcome'] = 'hang'
-    return dict(outcome=box.get('outcome', 'unknown'), stats=box.get('stats'), rec=rec,
+    return dict(outcome=box.get('outcome', 'unknown'), stats=box.get('stats'), rec=rec, traceback=box.get('traceback'),
                 files_closed=all(getattr(ds, 'closed', True) for (_, _, ds) in rec.datasets),
                 locks_free=all(not l.locked() for l in rec.lock_names.values()))
 
@@ -126,6 +128,8 @@ def run_stats(param_fn, rng=None, threads=2, fault=None, timeout=120):
                         box['outcome'] = 'ok'
                     except BaseException as ex:   # noqa: B902
                         box['outcome'] = 'raise:' + type(ex).__name__
+                        import traceback
+                        box['traceback'] = traceback.format_exc()[-1500:]
         except BaseException as ex:   # noqa: B902
             box['outcome'] = 'harness-error:' + type(ex).__name__ + ':' + str(ex)[:200]
     th = threading.Thread(target=body, daemon=True)
@@ -133,7 +137,7 @@ def run_stats(param_fn, rng=None, threads=2, fault=None, timeout=120):
     th.join(timeout)
     if th.is_alive():
         box['outcome'] = 'hang'
-    return dict(outcome=box.get('outcome', 'unknown'), stats=box.get('stats'), rec=rec,
+    return dict(outcome=box.get('outcome', 'unknown'), stats=box.get('stats'), rec=rec, traceback=box.get('traceback'),
                 files_closed=all(getattr(ds, 'closed', True) for (_, _, ds) in rec.datasets),
                 locks_free=all(not l.locked() for l in rec.lock_names.values()))
 
